@@ -836,8 +836,9 @@ func (fc *FnCtx) unop(x *ssa.UnOp) {
 	case token.NOT:
 		fc.vals[x] = V{Ty: x.Type(), T: []string{not(v.T[0])}}
 	case token.ARROW:
-		// channel receive: sequential fragment, the value is arbitrary
+		// channel receive: sequential fragment, the value is arbitrary; the ghost count of completed receives grows
 		fc.vals[x] = fc.freshWF(x.Type(), "recv", fc.cur)
+		fc.countRecv(v.T[0], "true")
 		fc.assumptions["channel receive yields an arbitrary value (sequential fragment)"] = true
 	default:
 		panic(unsupported("unop " + x.Op.String()))
@@ -1360,6 +1361,9 @@ func (fc *FnCtx) selectInstr(x *ssa.Select) {
 	}
 	arr := fc.heapGet(fc.cur, "ghost:closed", fieldSort(sBool))
 	for i, s := range x.States {
+		if s.Dir == types.RecvOnly {
+			fc.countRecv(fc.val(s.Chan).T[0], eq(idx, bvLit(uint64(i), 64)))
+		}
 		if s.Dir == types.SendOnly {
 			ch := fc.val(s.Chan)
 			sel := eq(idx, bvLit(uint64(i), 64))
@@ -1370,6 +1374,23 @@ func (fc *FnCtx) selectInstr(x *ssa.Select) {
 	}
 	fc.assumptions["select is a nondeterministic choice among its cases; received values are arbitrary (sequential fragment)"] = true
 	fc.vals[x] = out
+}
+
+// countRecv: ghost:recvs[ch] counts the receives this goroutine completed on ch (spec: recvs(ch)).
+func (fc *FnCtx) countRecv(ch, cond string) {
+	srt := fieldSort(sBV(64))
+	if !fc.dry {
+		for _, fs := range fc.activeFrames() {
+			goal := implies(cond, fc.frameGoalF(fs, "ghost:recvs", ch, ""))
+			if goal != "true" {
+				fc.oblige("frame", fs.label+"receive{recvs}", goal, fc.fn.Pos(), fc.cprops(), fs.text)
+			}
+		}
+	}
+	arr := fc.heapGet(fc.cur, "ghost:recvs", srt)
+	cur := sx("select", arr, ch)
+	fc.heapSet(fc.cur, "ghost:recvs", srt, sx("store", arr, ch, ite(cond, add64(cur, bvLit(1, 64)), cur)))
+	fc.noteWrite("ghost:recvs")
 }
 
 // ---- return ------------------------------------------------------------------
